@@ -288,6 +288,7 @@ def run_case(case):
         try:
             refused2 = False
             after_refusal = False
+            override_case = None
             if layout in ('single', 'evicted'):
                 ts = TS.create(base_file=base)
                 for t in range(1, ntraj + 1):
@@ -363,6 +364,20 @@ def run_case(case):
                 except ValueError:
                     pass
                 ts.save(base_file=base)
+            elif layout == 'override_in_session':
+                ts = TS.create(base_file=base)
+                for t in range(1, ntraj + 1):
+                    ts.add(build(case, t))
+                Assoc.FIELD_SETS = [fs]
+                # (the other version: the same species, the optional scalars unset where the base has them set and vice versa)
+                other = dict(case, unset=([] if case['unset'] else ['t_f', 't_i', 't_s']))
+
+                def mapping_o(traj):
+                    t = ident(traj, False)['p']
+                    return Assoc({k: (DEFAULTS[k] if x is UNTOUCHED else x) for k, x in values_for(other, t, len(traj)).items()})
+
+                ts.create_associated(assoc, ['vc_codec'], mapping_o)
+                override_case = other
             elif layout == 'create_associated':
                 ts = TS.create(base_file=base)
                 for t in range(1, ntraj + 1):
@@ -421,6 +436,18 @@ def run_case(case):
                 got = ts[t - 1]
                 for f, what, detail in compare(case, t, got):
                     devs.append((f, what, f'trajectory {t}: {detail}'))
+            if override_case is not None:
+                # the other version of the field set, from the associated file made inside the writing session
+                stage = 'reopen-with-override'
+                ts.close()
+                ts = None
+                gc.collect()
+                ts = TS.open(base_file=base, associated_files=[assoc], override=True)
+                stage = 'read-override'
+                for t in range(1, ntraj + 1):
+                    for f, what, detail in compare(override_case, t, ts[t - 1]):
+                        if f != 'base':
+                            devs.append((f, f'override-{what}', f'trajectory {t} read with the associated file of the other version: {detail}'))
         except MachineryError:
             raise
         except Exception as e:
